@@ -402,7 +402,7 @@ thread-local (fresh, under construction, package initialisation), or it is a rea
 a site that holds only the READ lock of a `sync.RWMutex` is accepted for reads and rejected for
 writes; and every guarded variable is in fact accessed under its guard somewhere. -/
 theorem all_sites_guarded : allSitesOk guards sites = true ∧ allGuardsUsed guards sites = true := by
-  decide
+  decide +kernel
 
 open PV.Gen.LockFacts in
 /-- Wherever a function of profile/, internal/driver/, internal/binutils/ acquires a mutex or enters a
@@ -417,6 +417,25 @@ open PV.Gen.LockFacts in
 `return` there is fine only after an `Unlock` in the same branch).  Other uses of sync primitives
 that have none of the recognised shapes are listed in `looseSync` and simply guard nothing. -/
 theorem no_lock_leak : noLeak looseSync = true := by decide
+
+open PV.Gen.LockFacts in
+/-- No read-modify-write of a mutex-guarded package variable is split over two critical sections
+(read the value under the lock or through a getter, write a value computed from it back under the
+lock again or through a setter): `lock_discipline_serialisable` makes each SECTION atomic, so an
+update that must not be lost has to be one section.  (Start-up code is exempt, see `startupFns`.) -/
+theorem no_split_rmw : noSplitRmw splitRMW = true := by decide
+
+open PV.Gen.LockFacts in
+/-- Every `os.Rename` — which replaces its destination — runs under a mutex.  The name that
+`excl_create_distinct_names` makes exclusive is the name passed to `O_CREATE|O_EXCL`; a file renamed
+afterwards to a name that was never reserved can replace another goroutine's (or an earlier) file. -/
+theorem rename_targets_serialised : renamesOk renames = true := by decide
+
+open PV.Gen.LockFacts in
+/-- Every assignment to a package-level variable made inside a function is covered by a mutex, is in
+the body of a `sync.Once` (the hypothesis of `once_single_init`: lazy initialisation goes through
+`Do`) or in `init`, or is one of the start-up writes. -/
+theorem globals_written_under_barrier : globalsOk globalWrites = true := by decide
 
 open PV.Gen.LockFacts in
 /-- newTempFile opens with `O_CREATE|O_EXCL` and retries on EEXIST: the step relation of
